@@ -38,6 +38,7 @@
 #include <tins/macros.h>
 #include <tins/pdu.h>
 #include <tins/endianness.h>
+#include <tins/small_uint.h>
 
 // Undefining some macros that conflict with some symbols here. 
 // Eventually, the conflicting names will be removed, but until then
@@ -827,7 +828,7 @@ public:
      * 
      * \param new_opcode The new opcode to be set.
      */
-    void opcode(uint8_t new_opcode);
+    void opcode(small_uint<4> new_opcode);
     
     /**
      * \brief Setter for the authoritative answer field.
@@ -835,7 +836,7 @@ public:
      * \param new_aa The new authoritative answer field value to 
      * be set.
      */
-    void authoritative_answer(uint8_t new_aa);
+    void authoritative_answer(small_uint<1> new_aa);
     
     /**
      * \brief Setter for the truncated field.
@@ -843,7 +844,7 @@ public:
      * \param new_tc The new truncated field value to 
      * be set.
      */
-    void truncated(uint8_t new_tc);
+    void truncated(small_uint<1> new_tc);
     
     /**
      * \brief Setter for the recursion desired field.
@@ -851,7 +852,7 @@ public:
      * \param new_rd The new recursion desired value to 
      * be set.
      */
-    void recursion_desired(uint8_t new_rd);
+    void recursion_desired(small_uint<1> new_rd);
     
     /**
      * \brief Setter for the recursion available field.
@@ -859,14 +860,14 @@ public:
      * \param new_ra The new recursion available value to 
      * be set.
      */
-    void recursion_available(uint8_t new_ra);
+    void recursion_available(small_uint<1> new_ra);
     
     /**
      * \brief Setter for the z(reserved) field.
      * 
      * \param new_z The new z value to be set.
      */
-    void z(uint8_t new_z);
+    void z(small_uint<1> new_z);
     
     /**
      * \brief Setter for the authenticated data field.
@@ -874,21 +875,21 @@ public:
      * \param new_ad The new authenticated data value to 
      * be set.
      */
-    void authenticated_data(uint8_t new_ad);
+    void authenticated_data(small_uint<1> new_ad);
     
     /**
      * \brief Setter for the checking disabled field.
      * 
      * \param new_z The new checking disabled value to be set.
      */
-    void checking_disabled(uint8_t new_cd);
+    void checking_disabled(small_uint<1> new_cd);
     
     /**
      * \brief Setter for the rcode field.
      * 
      * \param new_rcode The new rcode value to be set.
      */
-    void rcode(uint8_t new_rcode);
+    void rcode(small_uint<4> new_rcode);
     
     // Methods
     
